@@ -63,10 +63,13 @@ TRIVIA = {
     "ws_nonatomic": (("WHITESPACE", "!", S(" ")),),
     # an implicit rule that READS the stack: whether it matches at a position depends on what was pushed since it was last tried there
     "ws_pop": (("WHITESPACE", "_", ("pop",)),),
+    # WHITESPACE whose body is a bare sequence (it can fail after having consumed) next to a COMMENT: the COMMENT attempt starts where the
+    # WHITESPACE attempt started, not where it gave up
+    "both_seq": (("WHITESPACE", "_", ("seq", (S(" "), S(" ")))), ("COMMENT", "_", ("seq", (S("#"), S("!"))))),
     "cm_pred": (("COMMENT", "_", ("seq", (S("#"), ("star", ("grp", ("seq", (("not", ("grp", ("alt", (S("!"), R("EOI"))))), R("ANY")))))))),),
 }
 TRIVIA_SIGMA = {
-    "none": "", "ws": " ", "ws_loud": " ", "cm2": "#!", "both": " #!", "ws_choice": " \t", "cm1": "#", "both_loud": " #", "ws_overlap": "", "cm_pred": "#!", "ws_pairs": " .", "both_overlap": " #", "cm_nonatomic": "#!", "cm_stack": " #!", "ws_compound": " ", "ws_nonatomic": " ", "ws_pop": "",
+    "none": "", "ws": " ", "ws_loud": " ", "cm2": "#!", "both": " #!", "ws_choice": " \t", "cm1": "#", "both_loud": " #", "ws_overlap": "", "cm_pred": "#!", "ws_pairs": " .", "both_overlap": " #", "cm_nonatomic": "#!", "cm_stack": " #!", "ws_compound": " ", "ws_nonatomic": " ", "ws_pop": "", "both_seq": " #!",
 }
 
 
@@ -321,6 +324,14 @@ def extra_specs(kmode: str = "zero", tier: str = "quick"):
                 for m in ("", "!", "@"):
                     zstarts.append(((), (m, ("seq", pre + (rep,) + tail))))
                     zstarts.append(((), (m, ("seq", (("pushlit", "b"), rep) + tail))))
+    # ... and a predicate on the trivia character itself: (&" ")* terminates because the whitespace it looks at is skipped after the iteration;
+    # as the FIRST thing in a rule its first iteration ends at the offset the parse started from
+    sp = ("and", S(" "))
+    for u in (("star",), ("plus",), ("min", 1)):
+        rep = (u[0], sp) + tuple(u[1:])
+        for m in ("", "!"):
+            for body in (rep, ("seq", (rep, S("b"))), ("seq", (rep, ("star", S("b")))), ("seq", (S("a"), rep)), ("seq", (S("a"), rep, S("b"))), ("alt", (("seq", (rep, S("!"))), rep))):
+                zstarts.append(((), (m, body)))
     out.extend(batch_specs(zstarts, TRIVIA["ws"] + HELPERS, inputs("ab ", 3 if kmode == "all" else 4), kmode, "zero-width-repetition(ws)"))
     # (5) postfix operators chained on a counted repetition without parentheses: e{2}+ is (e{2})+, never e{2,}
     chains = []
@@ -486,7 +497,7 @@ def recursive_specs(kmode: str = "zero", tier: str = "quick", stack: bool = Fals
                     starts = [(f"t{k}_{tn}", "", ("seq", (mk(),) + tail)) for tn, mk in tops.items()]
                     rules = TRIVIA[tv] + HELPERS + (("a", "", body),) + tuple(starts)
                     sigma = "()x," + ("a" if not stack else "") + TRIVIA_SIGMA[tv]
-                    L = (5 if tier == "quick" else 7) - (1 if len(sigma) > 5 else 0)
+                    L = ((6 if tv == "none" else 5) if tier == "quick" else 7) - (1 if len(sigma) > 5 else 0)
                     out.append(Spec(rules, [x[0] for x in starts], inputs_pruned(sigma, L), kmode, f"recursive({rname},{place},{tv})"))
                     k += 1
     return out
@@ -501,7 +512,7 @@ def inputs_pruned(sigma: str, L: int):
 
 
 RECURSIVE_RULE_TEXT = ("; plus recursive grammars: a = { \"(\" ~ [op] ~ REC ~ [op] ~ \")\" } with REC in {(a ~ \",\")* ~ a?, a?, a*, (a ~ \",\" | a | \"\")} and op (a rule reference / a stack operation) before, after or on both sides of the "
-                       "recursive part, called as a*, a, a?, a ~ a? and in an abandoned alternative, on every input over {( ) x ,} (+ a / trivia) up to length 5 (thorough 7) that starts with \"(\"")
+                       "recursive part, called as a*, a, a?, a ~ a? and in an abandoned alternative, on every input over {( ) x ,} (+ a / trivia) up to length 6 (5 under trivia; thorough 7) that starts with \"(\"")
 
 
 def metachar_specs(kmode: str = "zero", tier: str = "quick"):
@@ -535,7 +546,7 @@ SKIP_RULE_TEXT = ("; plus skip shapes: (!stop ~ ANY)* with stop in {\"b\", (\"b\
                   "inputs over {a,b,B}+trivia up to length 4 (3 with trivia or with every start position)")
 
 EXTRA_RULE_TEXT = ("; plus (c) counts: every bound {m} {m,} {,n} {m,n} with counts 0..3 (zero counts included) over \"a\", n and (\"ab\"|\"a\"), alone / before \"a\" / before EOI / in an abandoned alternative / as a direct first alternative, normal and atomic, without and with implicit whitespace; "
-                   "(c3) zero-width repetitions: DROP, (&DROP ~ POP), (DROP ~ \"a\"?) under * + {1,} ? {,2} after one or two PUSH_LITERALs, followed by nothing / \"b\" / PEEK_ALL / \"a\"*, under implicit whitespace, in normal, ! and @ rules; "
+                   "(c3) zero-width repetitions: DROP, (&DROP ~ POP), (DROP ~ \"a\"?) under * + {1,} ? {,2} after one or two PUSH_LITERALs, and (&\" \") as the first thing in a rule, followed by nothing / \"b\" / PEEK_ALL / \"a\"*, under implicit whitespace, in normal, ! and @ rules; "
                    "(c4) postfix chains: every counted or plain repetition of \"a\" / n followed directly by a second postfix operator (e{2}+, e{1,2}*, e+{2} ...), inputs over {a,b} up to length 7; (c2) empty-ranges: every expression with <= 3 nodes over {'b'..'a', ('b'..'a' | 'z'..'y'), ('b'..'a' | 'z'..'y' | '9'..'0'), \"a\"}; (d) newline: every expression with <= 2 nodes over {NEWLINE, \"a\", \"\\n\", ANY} on every string over {a, \\r, \\n} up to length 4, also with WHITESPACE = _{ NEWLINE | \" \" }")
 
 
